@@ -21,6 +21,8 @@
 package forwarding
 
 import (
+	"errors"
+
 	errorsmod "cosmossdk.io/errors"
 	sdk "github.com/cosmos/cosmos-sdk/types"
 
@@ -55,8 +57,14 @@ func (a *InternalAttributes) Validate() error {
 		return core.ErrEmptyString.Wrap("invalid recipient address")
 	}
 
-	if _, err := sdk.AccAddressFromBech32(a.Recipient); err != nil {
+	recipient, err := sdk.AccAddressFromBech32(a.Recipient)
+	if err != nil {
 		return errorsmod.Wrapf(err, "invalid recipient address")
+	}
+
+	// NOTE: funds forwarded to the module account would never leave the Orbiter.
+	if recipient.Equals(core.ModuleAddress) {
+		return errors.New("recipient cannot be the Orbiter module account")
 	}
 
 	return nil
